@@ -234,7 +234,12 @@ class Discharger:
         ap = fb.find(ITP + "apply_procedure")
         asp = fb.find(ITP + "apply_scheme_procedure")
         bpa = fb.find("values::BuiltinProcedureBody::apply")
-        self.arity_ok = c08.arity_rule(sub, fb, ap, asp, bpa)
+        from . import evaltables
+        self.table_ok, self.table_visited = evaltables.application_is_sound(fb)
+        if self.table_visited:
+            self.arity_ok = self.table_ok          # decision tables of the application (evaltables.py) decided every row
+        else:
+            self.arity_ok = c08.arity_rule(sub, fb, ap, asp, bpa)
         # chokepoint: builtin bodies only invoked from BuiltinProcedureBody::apply <- apply_procedure
         self.choke_ok = all(f.name == ap.name for f, b, t in fb.call_sites(lambda t: callee(t) in (asp.name, bpa.name)))
         ctx.extra_cov["arity_precondition"] = self.arity_ok and self.choke_ok
@@ -388,6 +393,15 @@ class Discharger:
         return (True, "D-arity", "registered arity %d >= %d reads; every application is arity-checked" % (fixed, longest))
 
     def d_arity_user(self, f, b, t, kind, what):
+        if kind == "unwrap" and self.table_visited and f.name in self.table_visited and f.name.startswith(ITP) \
+                and not f.name.startswith(ITP + "eval_"):
+            # the argument-binding code of an application, wherever it lives (apply_scheme_procedure, a helper, a closure):
+            # the application table ran it for 0..3 arguments against fixed / rest / empty parameter lists; wrong counts are
+            # rejected before it runs and no unwrap met None
+            if self.table_ok and self.choke_ok:
+                return (True, "D-arity-user", "application decision table (12 rows): wrong argument counts are rejected before binding, "
+                                              "and binding never takes a missing argument")
+            return (False, "D-arity-user", "the application decision table shows a wrong argument count reaching the binding code")
         if kind != "unwrap" or not f.name.startswith(ITP + "apply_scheme_procedure::{closure"):
             return None
         src = self._unwrap_src(f, t)
@@ -456,6 +470,15 @@ class Discharger:
         if not src or not callee_matches(src[1], "HashMap::get", "HashMap::get_mut"):
             return None
         parent = self.fb.by_path(f.name.split("::{closure")[0])
+        # semantic discharge: the scope-chain table (scopes.py) evaluates the primitive, its helpers and this closure on a
+        # chain of three frames for every subset of frames binding the name, and records any unwrap that meets None
+        pname = parent.name.rsplit("::", 1)[-1]
+        if pname in ("get", "get_mut", "set", "define"):
+            from . import scopes
+            rows = [scopes.walk(self.fb, pname, found) for found in scopes.subsets(3)]
+            if all("stuck" not in r and not r.get("panics") for r in rows):
+                return (True, "D-checked-key", "scope-chain table of LexicalScope::%s (8 rows, closures and helpers followed): "
+                        "the mapped lookup never meets an absent key" % pname)
         cks = [(bb, tt) for bb, tt in parent.calls() if callee_matches(tt, "HashMap::contains_key")]
         maps = [(bb, tt) for bb, tt in parent.calls() if callee_matches(tt, "Ref::map", "RefMut::map")]
         if len(cks) != 1 or len(maps) != 1:
